@@ -183,6 +183,7 @@ PROPS["C20"] = {
     "corr": "Corr/MdWriteCorr.v: Model.MdWrite.write on the blocks of a generated document under the export options vs the string Exporter.ExportToString returns, byte for byte",
     "trusted_base": [
         "Model/MdWrite.v is hand-written from writer.go; texts are treated as bytes (strings.TrimSpace is modelled for ASCII white space)",
+        "Gen/MdTables.v (the set of characters the exporter escapes) regenerated from pkg/markdown/writer.go on every run",
         "the round trip (ConvertString of the exported Markdown gives the same blocks, text and per-character formatting; a second export gives the same Markdown) goes through goldmark and is decided by the harness, not by a theorem",
         "the harness compares texts with runs of blanks as one blank and without blanks at block ends (Markdown cannot express them)",
     ],
